@@ -45,23 +45,51 @@ class _Obj:
         self.__dict__.update(k)
 
 
+_REPLAY_DIRECTION = """
+import warnings, logging
+warnings.filterwarnings("ignore"); logging.disable(logging.CRITICAL)
+import numpy as np
+from hiten import System
+from hiten.algorithms.integrators.rk import _hamiltonian_rhs
+cm = System.from_bodies("earth", "moon").get_libration_point(1).get_center_manifold(degree=6)
+hs = cm.dynamics.hamsys
+pm = cm.poincare_map(energy=0.5)
+bad = False
+for sec in ("q3", "p3", "q2", "p2"):
+    st = np.asarray(pm.compute(section_coord=sec).states)
+    idx = {"q2": 1, "q3": 2, "p2": 4, "p3": 5}[sec]
+    up = dn = 0
+    for s4 in st:
+        d = _hamiltonian_rhs(np.array([0.0, s4[0], s4[2], 0.0, s4[1], s4[3]]), hs.jac_H, hs.clmo_H, 3)[idx]
+        up += int(d > 0); dn += int(d < 0)
+    print("section", sec, len(st), "returned points: section coordinate increasing at", up, ", decreasing at", dn)
+    bad = bad or min(up, dn) > 0
+print("CONFIRMED" if bad else "NOT-CONFIRMED")
+"""
+
+
 def _crossing(chk):
     import hiten.algorithms.poincare.centermanifold.backend as cb
     fn_label = CB + ":_detect_crossing"
-    spec = {"q3": (2, ("state", 5)), "p3": (5, ("rhs", 2)), "q2": (1, ("state", 4)), "p2": (4, ("rhs", 1))}
+    # Return direction of each section, derived from the property ("a genuine return ... crossing in the documented
+    # direction"), not from the code: seeds are lifted with a POSITIVE conjugate coordinate (C09: root of a bracket [0, b]),
+    # and to first order the reduced flow is the one of H2 = w2/2 (q2^2 + p2^2) + w3/2 (q3^2 + p3^2), w > 0 (C04):
+    # dq/dt = w p > 0 on a q-section, dp/dt = -w q < 0 on a p-section.  A point returns when the section coordinate
+    # itself changes sign in THAT direction: q-sections upward (f_old < 0 < f_new), p-sections downward (f_old > 0 > f_new).
+    spec = {"q3": (2, +1), "p3": (5, -1), "q2": (1, +1), "p2": (4, -1)}
 
     def body(ctx):
         so = [ctx.real("old%d" % i) for i in range(6)]
         sn = [ctx.real("new%d" % i) for i in range(6)]
         rh = [ctx.real("rhs%d" % i) for i in range(6)]
-        for sec, (fi, (src, di)) in spec.items():
+        for sec, (fi, sgn) in spec.items():
             crossed, alpha = cb._detect_crossing(sec, _np.array(so, dtype=object), _np.array(sn, dtype=object),
                                                  _np.array(rh, dtype=object), 3)
             fo, fnw = zv(so[fi]), zv(sn[fi])
-            dirv = zv(sn[di]) if src == "state" else zv(rh[di])
-            want = z3.And(fo * fnw < 0, dirv > 0)
-            ctx.check(f"_detect_crossing({sec}): reported iff f_old*f_new < 0 and the documented direction test holds",
+            want = z3.And(fo < 0, fnw > 0) if sgn > 0 else z3.And(fo > 0, fnw < 0)
+            ctx.check(f"_detect_crossing({sec}): reported iff the section coordinate changes sign in the section's return direction",
                       z3.BoolVal(bool(crossed)) == want)
+            ctx.ghost.setdefault("cex_sec", sec)
             if crossed:
                 a = zv(alpha)
                 ctx.check(f"_detect_crossing({sec}): alpha == f_old/(f_old-f_new) in (0,1)",
@@ -77,9 +105,10 @@ def _crossing(chk):
             st["d"] = 1
         return ex
     for sec in spec:
-        for nm in (f"_detect_crossing({sec}): reported iff f_old*f_new < 0 and the documented direction test holds",
+        for nm in (f"_detect_crossing({sec}): reported iff the section coordinate changes sign in the section's return direction",
                    f"_detect_crossing({sec}): alpha == f_old/(f_old-f_new) in (0,1)"):
-            chk.obl(nm, "K2 path VC", [fn_label], "B1 z3 NRA", lambda nm=nm: explore().verdict(nm))
+            chk.obl(nm, "K2 path VC", [fn_label], "B1 z3 NRA",
+                    lambda nm=nm: explore().verdict(nm, replay=_REPLAY_DIRECTION if "return direction" in nm else None))
 
     def th_hermite():
         import hiten.algorithms.poincare.utils as pu
